@@ -189,7 +189,12 @@ def one_run(cfg, prefix, template):
         # every thread gets its own Index object, opened before the race
         # starts: the property is about Index.writer(), not about open_dir()
         # racing with a commit
-        ixs = [get_ix() for _ in cfg["writers"]]
+        if cfg.get("shared_ix"):
+            # ... or all threads use ONE Index object (one process, the usual way)
+            one = get_ix()
+            ixs = [one for _ in cfg["writers"]]
+        else:
+            ixs = [get_ix() for _ in cfg["writers"]]
         for i, spec in enumerate(cfg["writers"]):
             outs[i] = {}
             sch.spawn(i, writer_body((lambda j=i: ixs[j]), spec, outs[i], sch))
@@ -400,6 +405,13 @@ def configs(tier):
                         "writers": [W(u"a", e1, hold=True), W(u"b", "async", delay=0.05, hold=True)]})
         out.append({"name": "%s:2w:async/async+del" % storage, "storage": storage,
                     "writers": [W(u"a", "async", delay=0.05, hold=True), W(u"b", "async", delay=0.05, delete=u"init", hold=True)]})
+    # all writer threads share ONE Index object
+    for storage in ("file", "ram"):
+        for e1, e2 in (("commit", "commit"), ("cancel", "commit"), ("raise", "with_ok"), ("commit", "cancel")):
+            out.append({"name": "%s:2w:shared-index:%s-hold/%s" % (storage, e1, e2), "storage": storage, "shared_ix": True,
+                        "writers": [W(u"a", e1, hold=True), W(u"b", e2)]})
+        out.append({"name": "%s:2w:shared-index:commit-hold/commit:wait" % storage, "storage": storage, "shared_ix": True,
+                    "writers": [W(u"a", "commit", hold=True), W(u"b", "commit", timeout=0.25, delay=0.1)]})
     # the lock file protocol itself: open(2) and flock(2) are separate steps
     out.append({"name": "file:3w:commit/commit/commit:hold:flock-steps", "storage": "file", "flock_points": True,
                 "writers": [W(u"a", "commit", hold=True), W(u"b", "commit", hold=True), W(u"c", "commit", hold=True)]})
@@ -436,7 +448,7 @@ def run(ctx):
         tasks.append((cfg, bound, cap, ctx.seed))
     ctx.extra["configs"] = len(tasks)
     ctx.rule = ("for each configuration (2-3 writer threads x endings {commit, cancel, exception in with-block, "
-                "with-block ok, AsyncWriter (direct or buffering + its replay thread) against a writer that keeps its transaction open} x {no timeout, polling timeout} x {FileStorage+flock, RamStorage}): every schedule "
+                "with-block ok, AsyncWriter (direct or buffering + its replay thread) against a writer that keeps its transaction open} x {one Index object per thread, one shared Index object} x {no timeout, polling timeout} x {FileStorage+flock, RamStorage}): every schedule "
                 "with at most B preemptions (B=2 for two writers, 1 for three; thorough 3/2) at storage-call, "
                 "lock and polling-sleep granularity is executed on the real code; states = distinct (per-thread "
                 "progress, directory image signature) pairs seen at scheduling decisions, summed over "
